@@ -93,6 +93,12 @@ ENTITY v14_rb; item : OPTIONAL v14_b; END_ENTITY;""",
             {'targets': ['v14_tgt'], 'referrers': [('v14_ra', [('item', 'single')]), ('v14_rb', [('item', 'single')])],
              'inverses': {'v14_tgt': [('v14_a.used_in', 'v14_ra', 'item', 'set'), ('v14_b.used_in', 'v14_rb', 'item', 'set')]}, 'tparams': {'v14_tgt': 3}}),
     # the inverted attribute is declared with a defined aggregate type, directly (seq) and through a renaming of it (ord)
+    # the inverted attribute is INHERITED by the entity the inverse names (FOR t, t declared in the supertype of v16_refsub): only the subtype's instances count
+    'v16': ("""ENTITY v16_tgt; n : INTEGER; INVERSE subusers : SET [0:?] OF v16_refsub FOR t; END_ENTITY;
+ENTITY v16_ref; t : OPTIONAL v16_tgt; END_ENTITY;
+ENTITY v16_refsub SUBTYPE OF (v16_ref); k : INTEGER; END_ENTITY;""",
+            {'targets': ['v16_tgt'], 'referrers': [('v16_ref', [('t', 'single')]), ('v16_refsub', [('t', 'single')])],
+             'inverses': {'v16_tgt': [('subusers', 'v16_refsub', 't', 'set')]}, 'extra': {'v16_refsub': ['7']}}),
     'v15': ("""TYPE v15_list = LIST [0:?] OF v15_tgt; END_TYPE;
 TYPE v15_ord = v15_list; END_TYPE;
 ENTITY v15_tgt; n : INTEGER; INVERSE in_seq : SET [0:?] OF v15_ref FOR seq; in_ord : SET [0:?] OF v15_ref FOR ord; END_ENTITY;
